@@ -11,6 +11,7 @@ import (
 	"runtime"
 	"sort"
 	"strings"
+	"sync/atomic"
 	"time"
 
 	"github.com/gotd/td/bin"
@@ -131,8 +132,8 @@ func buildIDBuf(caps []int, maxID int64) func(h []idEv) kit.Step[idEv] {
 				res = kit.OKo("rejected")
 			}
 		}
+		// slots in storage order: which slot an accepted id went to is implementation state
 		dump := real.VerifC07Dump()
-		sort.Slice(dump, func(i, j int) bool { return dump[i] < dump[j] })
 		var next []idEv
 		for id := int64(1); id <= maxID; id++ {
 			next = append(next, idEv{ID: id})
@@ -178,6 +179,214 @@ func evalBuf100(w wBuf100) kit.Result {
 		return r
 	}
 	return kit.OKo(fmt.Sprintf("probe-accepted=%v", got))
+}
+
+// ---------- (a2) unmerged histories on small windows ----------
+
+// wSeq is one complete history: Consume(id) for every id of IDs, in that order, on one buffer of
+// capacity Cap. Unlike the BFS nothing is merged: how an implementation arranges its slots
+// (arrival order, ring position, ...) is not visible in any dump the check could key on, so every
+// sequence up to the length bound is replayed from a fresh buffer and judged step by step.
+type wSeq struct {
+	Cap int     `json:"cap"`
+	IDs []int64 `json:"ids"`
+}
+
+// non-vacuity counters (quick-tier evidence): histories in which a stored id was replayed after an
+// out-of-order acceptance and an eviction; reorder scenarios in which the moved id arrived too late.
+var seqDeep, reorderLate atomic.Int64
+
+func evalSeq(w wSeq) kit.Result {
+	real := proto.NewMessageIDBuf(w.Cap)
+	ref := &refWindow{n: w.Cap}
+	var (
+		maxAcc                            int64
+		outOfOrder, evicted, storedReplay bool
+	)
+	for i, id := range w.IDs {
+		wasStored := ref.has(id)
+		full := len(ref.ids) >= ref.n
+		got := real.Consume(id)
+		if r := ref.step(id, got); r.Class != "" {
+			r.Msg = fmt.Sprintf("step %d of %v: %s", i, w.IDs, r.Msg)
+			return r
+		}
+		if got {
+			if id < maxAcc {
+				outOfOrder = true
+			} else {
+				maxAcc = id
+			}
+			if full {
+				evicted = true
+			}
+		} else if wasStored && outOfOrder && evicted {
+			storedReplay = true
+		}
+	}
+	if storedReplay {
+		seqDeep.Add(1)
+		return kit.OKo("stored-id-replayed-after-reorder-and-eviction:dropped")
+	}
+	return kit.OKo("judged-stepwise")
+}
+
+// forEachSeq calls fn with every sequence over 1..maxID of exactly n ids (the slice is reused).
+func forEachSeq(n int, maxID int64, fn func([]int64) bool) {
+	ids := make([]int64, n)
+	for i := range ids {
+		ids[i] = 1
+	}
+	for {
+		if !fn(ids) {
+			return
+		}
+		i := n - 1
+		for i >= 0 && ids[i] == maxID {
+			ids[i] = 1
+			i--
+		}
+		if i < 0 {
+			return
+		}
+		ids[i]++
+	}
+}
+
+// ---------- (a3) capacity 100: arrival orders, overflow, replay of everything ----------
+
+// wReorder describes Total distinct ids (rank 0..Total-1, ascending values) and the order in which
+// they arrive; afterwards every one of them is replayed (ascending), then a never-seen id between
+// two stored ones and one above all are sent.
+//
+//	asc | desc | shuffle: ranks 0..99 in that order (as family idbuf100), then ranks 100..Total-1 ascending
+//	move: ascending, except that rank From arrives at position To (a delayed or early message)
+type wReorder struct {
+	Order string `json:"order"`
+	From  int    `json:"from,omitempty"`
+	To    int    `json:"to,omitempty"`
+	Total int    `json:"total"`
+}
+
+func (w wReorder) arrival() []int {
+	var ranks []int
+	switch w.Order {
+	case "move":
+		for k := 0; k < w.Total; k++ {
+			if k != w.From {
+				ranks = append(ranks, k)
+			}
+		}
+		to := w.To
+		if to > len(ranks) {
+			to = len(ranks)
+		}
+		ranks = append(ranks[:to], append([]int{w.From}, ranks[to:]...)...)
+	default:
+		for _, v := range fillOrder(w.Order) {
+			ranks = append(ranks, int((v-1000)/4))
+		}
+		for k := 100; k < w.Total; k++ {
+			ranks = append(ranks, k)
+		}
+	}
+	return ranks
+}
+
+// runReorder drives send (true = accepted / processed) through the scenario; idOf(rank, between)
+// maps a rank to its id, between=true giving a never-sent id just above that rank's id.
+func runReorder(w wReorder, idOf func(rank int, between bool) int64, send func(id int64) (bool, error)) kit.Result {
+	ref := &refWindow{n: 100}
+	step := func(what string, id int64) (bool, kit.Result) {
+		got, err := send(id)
+		if err != nil {
+			return false, kit.Bad("bad-witness", "%v", err)
+		}
+		r := ref.step(id, got)
+		if r.Class != "" {
+			r.Msg = what + ": " + r.Msg
+		}
+		return got, r
+	}
+	accepted := 0
+	for i, k := range w.arrival() {
+		got, r := step(fmt.Sprintf("arrival %d (rank %d)", i, k), idOf(k, false))
+		if r.Class != "" {
+			return r
+		}
+		if got {
+			accepted++
+		}
+	}
+	// every id sent so far was either accepted - then it is stored or, once evicted (the lowest is),
+	// below all stored ones - or dropped as below-min and still is: each replay must be dropped.
+	for k := 0; k < w.Total; k++ {
+		if _, r := step(fmt.Sprintf("replay of rank %d after %d accepted", k, accepted), idOf(k, false)); r.Class != "" {
+			return r
+		}
+	}
+	freshBetween, r := step("never-seen id between stored ones", idOf(w.Total-40, true))
+	if r.Class != "" {
+		return r
+	}
+	freshAbove, r := step("never-seen id above all", idOf(w.Total+1, false))
+	if r.Class != "" {
+		return r
+	}
+	if !freshBetween || !freshAbove { // unreachable: ref.step reports valid-dropped
+		return kit.Bad("valid-dropped", "fresh ids dropped (between=%v above=%v)", freshBetween, freshAbove)
+	}
+	if accepted < w.Total {
+		reorderLate.Add(1)
+	}
+	return kit.OKo("all-replays-dropped,fresh-accepted")
+}
+
+func evalBufReorder(w wReorder) kit.Result {
+	real := proto.NewMessageIDBuf(100)
+	return runReorder(w,
+		func(rank int, between bool) int64 {
+			id := 1000 + 4*int64(rank)
+			if between {
+				id += 2
+			}
+			return id
+		},
+		func(id int64) (bool, error) { return real.Consume(id), nil })
+}
+
+func reorderCases(thorough bool) []wReorder {
+	totals := []int{100, 101, 102, 150, 200, 201}
+	if thorough {
+		totals = []int{100, 101, 102, 103, 110, 150, 199, 200, 201, 202, 250}
+	}
+	var ws []wReorder
+	for _, t := range totals {
+		for _, o := range []string{"asc", "desc", "shuffle"} {
+			ws = append(ws, wReorder{Order: o, Total: t})
+		}
+		froms := []int{0, 1, 2, 50, 98, 99, 100, t - 2, t - 1}
+		dists := []int{-100, -50, -2, -1, 1, 2, 50, 99, 100, 101}
+		if thorough {
+			froms = froms[:0]
+			for k := 0; k < t; k++ {
+				froms = append(froms, k)
+			}
+			dists = []int{-101, -100, -99, -50, -3, -2, -1, 1, 2, 3, 50, 98, 99, 100, 101, 102}
+		}
+		seen := map[[2]int]bool{}
+		for _, f := range froms {
+			for _, d := range dists {
+				to := f + d
+				if f < 0 || f >= t || to < 0 || to >= t || seen[[2]int{f, to}] {
+					continue
+				}
+				seen[[2]int{f, to}] = true
+				ws = append(ws, wReorder{Order: "move", From: f, To: to, Total: t})
+			}
+		}
+	}
+	return ws
 }
 
 // ---------- (b) checkMessageID ----------
@@ -600,6 +809,33 @@ func evalHist100(w wHist100) kit.Result {
 	return kit.OKo(fmt.Sprintf("probe-processed=%v", got))
 }
 
+// evalHistReorder: the wReorder scenarios as real server frames through consumeMessage (N = 100 in Conn).
+func evalHistReorder(w wReorder) kit.Result {
+	r, err := newRig()
+	if err != nil {
+		return kit.Bad("harness", "%v", err)
+	}
+	data, _ := payloadBytes("update", 36, 0)
+	return runReorder(w,
+		func(rank int, between bool) int64 {
+			// one id per second from 285 s in the past; Total <= 300 keeps every id inside -300 s..+30 s
+			low := uint32(1)
+			if between {
+				low = 3
+			}
+			return refsession.MsgID(nowSec-285+int64(rank), low)
+		},
+		func(id int64) (bool, error) {
+			frame, err := sealFrame(wRead{Key: "right", Session: "right", Pad: 12}, r.session, id, data)
+			if err != nil {
+				return false, err
+			}
+			before := r.h.messages
+			_ = r.conn.VerifC07Consume(r.ctx, frame)
+			return r.h.messages > before, nil
+		})
+}
+
 func main() {
 	kit.Main("C07", "model_checking", func(c *kit.Ctx) {
 		caps, maxID := []int{3, 4}, int64(6)
@@ -611,23 +847,69 @@ func main() {
 		read := kit.NewFamily(c, "read", evalRead)
 		hist := kit.NewFamily(c, "read-history", evalHist)
 		hist100 := kit.NewFamily(c, "read-history100", evalHist100)
+		seq := kit.NewFamily(c, "idbuf-seq", evalSeq)
+		bufReorder := kit.NewFamily(c, "idbuf100-reorder", evalBufReorder)
+		histReorder := kit.NewFamily(c, "read-history100-reorder", evalHistReorder)
+		// unmerged histories: {capacity, ids 1..max, exact length}
+		seqBounds := [][3]int{{2, 5, 7}, {3, 6, 7}, {4, 6, 7}}
+		if c.Thorough() {
+			seqBounds = [][3]int{{1, 4, 8}, {2, 6, 8}, {3, 7, 8}, {4, 7, 8}, {5, 7, 8}}
+		}
 		// the BFS registers family "idbuf" (also in replay mode)
 		st := kit.BFS(c, "idbuf", 0, 2_000_000, buildIDBuf(caps, maxID))
 		if c.Replaying() {
 			return
 		}
 		c.Set("idbuf_states", st.States)
-		c.Rule("idbuf: explicit-state BFS to the fixpoint over proto.MessageIDBuf of capacity %v with Consume(id), id in 1..%d, state = (sorted implementation buffer, reference window); "+
+		c.Rule("idbuf: explicit-state BFS to the fixpoint over proto.MessageIDBuf of capacity %v with Consume(id), id in 1..%d, state = (implementation slots in storage order, reference window); "+
 			"the reference is the statement's window (reject if equal to one of the last N accepted ids or lower than all once N are stored; the lowest is evicted). "+
-			"idbuf100: capacity 100 filled in 3 orders, then every stored id, ids below/above/between. msgid: checkMessageID for clock-minus-id offsets around -30 s and +300 s (+-1 s, +-10 ns, +-1 ns, 0) "+
+			"idbuf-seq: every sequence of Consume calls {capacity, ids 1..max, length} = %v replayed unmerged from a fresh buffer and judged on every step (slot arrangement / arrival order is hidden state no key can capture; "+
+			"covers out-of-order acceptance, then >= N accepted ids, then a replay of each stored and evicted id). "+
+			"idbuf100: capacity 100 filled in 3 orders, then every stored id, ids below/above/between. idbuf100-reorder / read-history100-reorder: N = 100 directly and as real frames through consumeMessage: "+
+			"%d arrival orders of T distinct ids (T from 100 to beyond 2N; ascending / descending / shuffled first 100, or ascending with the id of rank i arriving at position j, |i-j| from 1 to 101), "+
+			"then a replay of every one of the T ids (stored and evicted), then never-seen ids between and above the stored ones. msgid: checkMessageID for clock-minus-id offsets around -30 s and +300 s (+-1 s, +-10 ns, +-1 ns, 0) "+
 			"x the 4 type residues x low-32-bit shapes. read: frames built by an independent MTProto 2.0 server-side reference and fed to the real consumeMessage of an in-package Conn with a recording "+
 			"Handler and a pending Invoke: {7 key/ciphertext variants} x {right, wrong, zero session} x id classes x {data length 32..47 with every 16-aligned padding 0..1072, declared-length lies} x "+
 			"{update -> OnMessage, rpc_result -> Invoke, new_session_created -> OnSession/salt}; oracle: a handler/engine/salt effect happens iff every condition of the statement holds "+
 			"(ids at a window edge where td's and the spec's reading of the low 32 bits disagree may go either way). read-history: every sequence of valid / wrong-session frames over 4 ids up to length %d; "+
-			"read-history100: 100 accepted frames then replays. distinct = distinct witnesses / BFS states.", caps, maxID, histLen(c))
+			"read-history100: 100 accepted frames then replays. distinct = distinct witnesses / BFS states.", caps, maxID, seqBounds, len(reorderCases(c.Thorough())), histLen(c))
 		c.Assume("reference AES-IGE/KDF/msg_key (lib/refcrypto) and envelope layout (lib/refsession) written from the MTProto description")
 		c.Assume("'lower than all' before N ids are stored is accepted either way (the statement says 'once N are stored', the security guidelines do not)")
 		c.Assume("single harness thread; handlers are observed synchronously after consumeMessage returns")
+
+		// idbuf-seq
+		var seqN int64
+		for _, b := range seqBounds {
+			forEachSeq(b[2], int64(b[1]), func(ids []int64) bool {
+				if seqN&0xfff == 0 && c.Expired() {
+					return false
+				}
+				seqN++
+				seq.Eval(wSeq{Cap: b[0], IDs: append([]int64{}, ids...)})
+				return true
+			})
+		}
+		c.Set("idbuf_seq_histories", seqN)
+		c.Set("idbuf_seq_stored_replay_after_reorder_and_eviction", seqDeep.Load())
+		if c.Expired() {
+			c.NotExhaustive("idbuf-seq stopped by the time budget after %d histories", seqN)
+		}
+		// idbuf100-reorder, read-history100-reorder
+		reorders := reorderCases(c.Thorough())
+		c.Set("reorder_cases", len(reorders))
+		for _, w := range reorders {
+			bufReorder.Eval(w)
+		}
+		kit.Parallel(len(reorders), runtime.NumCPU(), func(i int) {
+			if c.Expired() {
+				return
+			}
+			histReorder.Eval(reorders[i])
+		})
+		if c.Expired() {
+			c.NotExhaustive("read-history100-reorder stopped by the time budget")
+		}
+		c.Set("reorder_cases_with_id_arriving_below_window", reorderLate.Load())
 
 		// idbuf100
 		for _, o := range []string{"asc", "desc", "shuffle"} {
